@@ -19,6 +19,14 @@ def main(argv):
     seed, shard, ncases, budget = int(seed), int(shard), int(ncases), float(budget)
     only = int(argv[7]) if len(argv) > 7 else None
 
+    # a runaway allocation must surface as a MemoryError with a traceback in this case's record, not take the
+    # machine (and every other shard) down: address-space limit per worker (PV_WORKER_MEM_GB, default 16)
+    try:
+        import resource
+        lim = int(float(os.environ.get('PV_WORKER_MEM_GB', '16')) * (1 << 30))
+        resource.setrlimit(resource.RLIMIT_AS, (lim, lim))
+    except Exception:  # noqa: BLE001
+        pass
     from pv import core, reach
     mod = importlib.import_module('pv.checks.' + pid.lower())
     if os.environ.get('PV_REACH', '1') == '1':
